@@ -13,7 +13,7 @@ use serde::{Deserialize, Serialize};
 pub fn def() -> PropDef {
     PropDef {
         id: "C17",
-        rule: "generated histories on one encoder or decoder of every family x engine: a first configuration, then 1..6 steps, each a reset (or into_parts -> new(Some(work)) into another family/engine) to a generated target followed by complete rounds (adds, encode/decode, results read through the borrowing accessors, result dropped). A counting global allocator records every allocation and growing reallocation made by the thread inside the measured region 'reset/new-with-work + adds + encode/decode + read + drop'. need(cfg) is *measured* on a freshly built object of the same family (the sizes of everything its constructor allocates, engine excluded). Every history is executed at three scales: as generated, with every shard size x3, and with every count x2. oracle (metamorphic): in every region whose target fits (need(target) <= the element-wise maximum need over the object's past, at both scales) and in every second or later round of a configuration, the number of bytes allocated must be the same at both scales, i.e. nothing that is allocated there may grow with the shard size or with the counts (a fixed-size scratch buffer is not shard-proportional and is tolerated; it is reported in the class histogram). Every measured buffer is >= 16 KiB. Part big_resets: reset-only sawtooth histories (largest configuration first, then fractions of it) whose largest working space is drawn log-uniformly from 16 KiB to 512 MiB (quick) / 1 GiB (thorough), executed as generated and with doubled shard sizes, same oracle (byte thresholds in fast paths are invisible to small configurations). non-trivial: target differs from the previous configuration and fits; distinct by full case",
+        rule: "generated histories on one encoder or decoder of every family x engine: a first configuration, then 1..6 steps, each a reset (or into_parts -> new(Some(work)) into another family/engine) to a generated target followed by complete rounds (adds, encode/decode, results read through the borrowing accessors, result dropped). A counting global allocator records every allocation and growing reallocation made by the thread inside the measured region 'reset/new-with-work + adds + encode/decode + read + drop'. need(cfg) is *measured* on a freshly built object of the same family (the sizes of everything its constructor allocates, engine excluded). Every history is executed at three scales: as generated, with every shard size x3, and with every count x2. oracle (metamorphic): in every region whose target fits (need(target) <= the element-wise maximum need over the object's past, at both scales) and in every second or later round of a configuration, the number of bytes allocated must be the same at both scales, i.e. nothing that is allocated there may grow with the shard size or with the counts (a fixed-size scratch buffer is not shard-proportional and is tolerated; it is reported in the class histogram). Every measured buffer is >= 16 KiB. Part big_resets: reset-only sawtooth histories (largest configuration first, then fractions of it) whose largest working space is drawn log-uniformly from 16 KiB to 512 MiB (quick) / 1 GiB (thorough), with a complete round (result read and dropped) after every reset to a small configuration, executed as generated and with doubled shard sizes, same oracle (byte thresholds in fast paths are invisible to small configurations). non-trivial: target differs from the previous configuration and fits; distinct by full case",
         assumptions: &[
             "an object holds at least the maximum it ever needed (Vec never shrinks); capacity may be larger, which only makes the check claim 'fits' less often than true",
             "all lookup tables and engines are initialised before measuring",
@@ -132,6 +132,11 @@ fn check_big_inner(c: &BigCase, st: &mut Stats) -> CheckResult {
             ensure!(out.is_ok(), "reset to supported {target:?} failed: {}", out.brief());
             v.push((fits, seen, target));
             hold_more(&mut held, &n);
+            // a complete round whose result is read and dropped, when that is cheap (small target): anything
+            // the implementation does to its working space on drop happens before the next reset is measured
+            if target.positions(c.kind) * target.b <= (16 << 20) {
+                run_round(&mut obj, &inputs(c.dec, target, c.top_q as u64))?;
+            }
         }
         obs.push(v);
     }
